@@ -211,6 +211,40 @@ theorem add_sheet_appends (d d' : Doc) (name : Text) (sid : Nat) (ss : List Nat)
     · simp [sheetIds, getObj, dictGet, dictGet?_dictSet, bind, Except.bind]
     · simp [sheetName, dictGet?_dictSet, hne, hg1]
 
+/-- **adding a sheet raises nothing, whatever the container looks like**: on every valid document that has its document
+    object — for EVERY file store: members in any order, blobs of any name (`Metadata/DocumentIdentifier` before
+    `Index/Document.iwa` in a file whose zip members are stored in another order) — `add_sheet` returns a new sheet.
+    (After fixes/C19-new-objects-go-to-iwa-members.patch; the pinned code raised AttributeError there, example below.) -/
+theorem add_sheet_succeeds (d : Doc) (name : Text) (ss : List Nat) (hv : Valid d) (hs : sheetIds d.objects = .ok ss) :
+    ∃ d', addSheet d name = .ok (d', d.maxId + 1) := by
+  obtain ⟨d1, h1, _, hob⟩ := createObject_total d "Document".toList (.sheet name [])
+  simp only [sheetIds, getObj, dictGet, bind, Except.bind] at hs
+  cases hd : dictGet? d.objects Gen.DOCUMENT_ID with
+  | none => simp [hd] at hs
+  | some od =>
+    simp only [hd] at hs
+    cases od <;> simp only [reduceCtorEq] at hs
+    rename_i ss0
+    have hd1 : dictGet? d1.objects Gen.DOCUMENT_ID = some (.document ss0) := by
+      rw [hob, dictSet_fresh _ _ _ (fresh_of_bound hv)]
+      exact dictGet?_append_of_some _ _ _ _ hd
+    exact ⟨{ d1 with objects := dictSet d1.objects Gen.DOCUMENT_ID (.document (ss0 ++ [d.maxId + 1])) },
+      by unfold addSheet; rw [h1]; simp [DocTree.modify, getObj, dictGet, hd1, bind, Except.bind]⟩
+
+/-- creating objects never depends on the blobs of the package: the same members with the non-IWA ones removed, renamed or
+    moved give the same candidate list -/
+theorem creation_ignores_blobs (fs : Files) (pat : Text) :
+    ObjStore.iwaPaths fs pat = ObjStore.iwaPaths (fs.filter fun f => f.2.isSome) pat := by
+  induction fs with
+  | nil => rfl
+  | cons f r ih =>
+    obtain ⟨n, o⟩ := f
+    cases o with
+    | none => simpa [ObjStore.iwaPaths] using ih
+    | some segs =>
+      simp only [ObjStore.iwaPaths, List.filterMap_cons, Option.isSome_some, List.filter_cons_of_pos] at ih ⊢
+      split <;> simp [ih]
+
 /-! ### isolation: a change to one table leaves every other name, and all order, as it was -/
 
 theorem sti_nonInfo (sid : Option Nat) (k : Nat) (v : Obj) (hv : ¬ IsInfo v) : sheetTableInfos [(k, v)] sid = [] := by
@@ -329,5 +363,22 @@ example : (do let d ← run exDoc exOps; names (load ((serialise d).map fun (m :
     .ok [(some "S".toList, ["T'".toList, "U".toList]), (some "S2".toList, [])] := by decide
 example : (do let d ← run exDoc exOps; namesPinned (load ((serialise d).map fun (m : Member) => ((m.1, m.2.map List.reverse) : Member)).reverse).objects) =
     .ok [(some "S".toList, ["U".toList, "T'".toList]), (some "S2".toList, [])] := by decide
+
+/-! the same document with its members in reverse order (`Metadata/DocumentIdentifier` first): the pinned
+    `create_object_from_dict` took that blob for "Document" and raised AttributeError (known finding
+    `edit-raises-on-reordered-container`, fixed by fixes/C19-new-objects-go-to-iwa-members.patch); the repaired code runs the
+    whole history and shows the same names -/
+def exDocRev : Doc :=
+  { objects := exDoc.objects,
+    files := [("Metadata/DocumentIdentifier".toList, none), ("Index/CalculationEngine.iwa".toList, some [11, 10, 12]),
+              ("Index/Document.iwa".toList, some [1, 5])],
+    maxId := 1000000 }
+example : exDocRev.files = exDoc.files.reverse := by decide
+example : createObjectPinned exDocRev "Document".toList (.sheet "S2".toList []) = .error .AttributeError := by decide
+example : (createObjectPinned exDoc "Document".toList (.sheet "S2".toList [])).toOption.isSome = true := by decide
+example : (do let r ← addSheet exDocRev "S2".toList; names r.1.objects) =
+    .ok [(some "S".toList, ["T".toList]), (some "S2".toList, [])] := by decide +kernel
+example : (do let d ← run exDocRev exOps; names d.objects) =
+    .ok [(some "S".toList, ["T'".toList, "U".toList]), (some "S2".toList, [])] := by decide +kernel
 
 end NumbersModel.Props.C19
